@@ -119,6 +119,18 @@ def Cat(parts):
         else:
             j.append(p)
     m = j
+    # xor distributes over concatenation: xor(a1,b1) ++ xor(a2,b2) = xor(a1 ++ a2, b1 ++ b2) when the parts have equal lengths
+    if sum(1 for p in m if p[0] == 'app' and p[1] == 'xor') >= 2:
+        j = []
+        for p in m:
+            if j and p[0] == 'app' and p[1] == 'xor' and j[-1][0] == 'app' and j[-1][1] == 'xor':
+                a1, b1 = j[-1][2]
+                a2, b2 = p[2]
+                if tlen(a1) is not None and tlen(a1) == tlen(b1) and tlen(a2) is not None and tlen(a2) == tlen(b2):
+                    j[-1] = ('app', 'xor', (Cat([a1, a2]), Cat([b1, b2])))
+                    continue
+            j.append(p)
+        m = j
     if not m:
         return ('bytes', b'')
     if len(m) == 1:
